@@ -117,7 +117,8 @@ def analyse(prop_id: str, repo: str, tier: str = "quick", prog: Program = None, 
     except AnalysisError as e:
         # obligations already decided stand on their own: a violation that was
         # established before a later rule lost its anchor is still reported
-        if any(not o.ok for o in ctx.obs):
+        listed = {f["key"] for f in load_known().get("findings", []) if f["property"] == prop_id}
+        if any(not o.ok and o.key not in listed for o in ctx.obs):
             ctx.note(f"analysis stopped early after a violation was established: {e}")
             ctx.incomplete = str(e)
             return ctx
